@@ -256,6 +256,40 @@ def udf_fid_cross(cfg, rng, n=60):
     return ops, sizes
 
 
+def udf_fid_churn(cfg, rng):
+    """UDF: the identifier area of one directory grows past a block, shrinks back into one block by removals and grows past the
+    block again (and once more); every crossing in either direction must move the partition size"""
+    if not cfg.udf:
+        return None
+    ops, sizes = [], {}
+    ops.append({'k': 'add_dir', 'udf': '/churn'})
+
+    def nm(i):
+        return '/churn/n%03d-%s' % (i, 'y' * (i % 9))
+    k = 0
+    live = []
+
+    def add(n):
+        nonlocal k
+        for _ in range(n):
+            k += 1
+            sizes[k] = k % 2
+            ops.append({'k': 'add_fp', 'blob': k, 'size': k % 2, 'udf': nm(k)})
+            live.append(k)
+
+    def rm(n):
+        for _ in range(min(n, len(live))):
+            i = live.pop(rng.randrange(len(live)))
+            ops.append({'k': 'rm_link', 'ns': 'udf', 'path': nm(i)})
+    add(rng.randrange(44, 52))     # ~48 bytes per descriptor: past 2048
+    rm(rng.randrange(12, 30))      # back into one block
+    add(rng.randrange(14, 34))     # past the block again
+    if rng.random() < 0.5:
+        rm(rng.randrange(12, 30))
+        add(rng.randrange(14, 34))
+    return ops, sizes
+
+
 def boot_hide_after_reopen(cfg, rng):
     """El Torito boot file with names in every namespace; image reopened; then every file-system name of the boot
     file is removed (a documented way to hide it); optionally rm_eltorito afterwards.  Returns (ops, sizes, reopen_points)"""
@@ -287,6 +321,51 @@ def boot_hide_after_reopen(cfg, rng):
         ops.append({'k': 'rm_link', 'ns': ns, 'path': p})
     if rng.random() < 0.5:
         ops.append({'k': 'rm_eltorito'})
+    return ops, sizes, rp
+
+
+def boot_partial_names(cfg, rng):
+    """El Torito boot file with names in every namespace; a proper SUBSET of its names is removed (possibly all ISO9660
+    ones, leaving only Joliet / UDF names), then rm_eltorito: the content must live on under the names that are left, and
+    go away with the last of them.  Optional reopen before the removals.  Returns (ops, sizes, reopen_points)"""
+    ops, sizes = [], {1: rng.choice([64, 2049, 5000]), 2: 7}
+    op = {'k': 'add_fp', 'blob': 1, 'size': sizes[1], 'iso': '/BOOT.;1'}
+    if cfg.rr:
+        op['rr'] = 'boot'
+    if cfg.joliet:
+        op['jol'] = '/boot'
+    if cfg.udf:
+        op['udf'] = '/boot'
+    ops.append(op)
+    op2 = {'k': 'add_fp', 'blob': 2, 'size': 7, 'iso': '/OTHER.;1'}
+    if cfg.rr:
+        op2['rr'] = 'other'
+    ops.append(op2)
+    cat = {'k': 'add_eltorito', 'bootfile': '/BOOT.;1', 'catalog': '/BOOT.CAT;1'}
+    if cfg.rr:
+        cat['rr'] = 'boot.cat'
+    if cfg.joliet:
+        cat['jol'] = '/boot.cat'
+    ops.append(cat)
+    rp = [len(ops)] if rng.random() < 0.4 else []
+    names = [('iso', '/BOOT.;1')] + ([('jol', '/boot')] if cfg.joliet else []) + ([('udf', '/boot')] if cfg.udf else [])
+    keep = rng.randrange(1, len(names)) if len(names) > 1 else 0
+    rng.shuffle(names)
+    if rng.random() < 0.6 and ('iso', '/BOOT.;1') in names[:keep] and len(names) > 1:
+        # make sure the ISO9660 name is among the removed ones most of the time
+        names.remove(('iso', '/BOOT.;1'))
+        names.append(('iso', '/BOOT.;1'))
+    for ns, p in names[keep:]:
+        ops.append({'k': 'rm_link', 'ns': ns, 'path': p})
+    ops.append({'k': 'rm_eltorito'})
+    op3 = {'k': 'add_fp', 'blob': 3, 'size': 2048, 'iso': '/AFTER.;1'}
+    sizes[3] = 2048
+    if cfg.rr:
+        op3['rr'] = 'after'
+    ops.append(op3)
+    if rng.random() < 0.5:
+        for ns, p in names[:keep]:
+            ops.append({'k': 'rm_link', 'ns': ns, 'path': p})
     return ops, sizes, rp
 
 
@@ -405,27 +484,8 @@ def fat_dir_churn(cfg, rng):
     return ops, sizes
 
 
-LINK_RECIPES = {'boot_hide_after_reopen': boot_hide_after_reopen, 'same_name_links': same_name_links}
-
-
-def long_symlinks(cfg, rng, lo=None):
-    """Rock Ridge symlinks whose targets cross every SL record / component boundary: a first component of every
-    length around the room left in the directory record and in a 250-byte continuation piece, followed by more
-    components; '.'/'..'/'' pieces; targets of many short components"""
-    if not cfg.rr:
-        return None
-    ops = []
-    lo = rng.randrange(100, 125) if lo is None else lo
-    k = 0
-    for L in range(lo, lo + 40):
-        k += 1
-        ops.append({'k': 'add_symlink_rr', 'iso': '/' + file_ident(cfg, k, 8), 'rr': 's%d' % k, 'target': 'a' * L + '/b'})
-    for tgt in ('a' * 248 + '/b/c', 'a' * 249 + '/b', 'a' * 250 + '/b', 'a' * 251 + '/b', 'x' * 300 + '/' + 'y' * 270,
-                '/'.join(['ab'] * 40), '/'.join(['a'] * 90), '/abs/' + 'p' * 130 + '/q', '../up/' + 'u' * 128 + '/v',
-                './' + 'h' * 127 + '/i', 'a//b', 'trail/', '/'):
-        k += 1
-        ops.append({'k': 'add_symlink_rr', 'iso': '/' + file_ident(cfg, k, 8), 'rr': 's%d' % k, 'target': tgt})
-    return ops, {}
+LINK_RECIPES = {'boot_hide_after_reopen': boot_hide_after_reopen, 'same_name_links': same_name_links,
+                'boot_partial_names': boot_partial_names}
 
 
 def long_symlinks(cfg, rng, lo=None):
@@ -527,6 +587,7 @@ RECIPES = {
     'deep_tree': lambda cfg, rng: deep_tree(cfg, rng),
     'long_symlinks': lambda cfg, rng: long_symlinks(cfg, rng),
     'udf_fid_cross': lambda cfg, rng: udf_fid_cross(cfg, rng),
+    'udf_fid_churn': lambda cfg, rng: udf_fid_churn(cfg, rng),
     'udf_fid_exact': lambda cfg, rng: udf_fid_exact(cfg, rng),
     'udf_symlinks': lambda cfg, rng: udf_symlinks(cfg, rng),
 }
